@@ -168,6 +168,10 @@ func convert(ctx []byte, hook string, dropOne bool) string {
 	from, _ := c["fromVersion"].(string)
 	review, _ := c["review"].(map[string]any)
 	req, _ := review["request"].(map[string]any)
+	// the last step of a chain produces the spelling the API server asked for
+	if desired, _ := req["desiredAPIVersion"].(string); desired != "" && sameVersion(desired, to) {
+		to = desired
+	}
 	objs, _ := req["objects"].([]any)
 	var out []any
 	for i, o := range objs {
@@ -198,4 +202,18 @@ func convert(ctx []byte, hook string, dropOne bool) string {
 	}
 	b, _ := json.Marshal(map[string]any{"convertedObjects": out})
 	return string(b)
+}
+
+func sameVersion(a, b string) bool {
+	if a == b {
+		return true
+	}
+	ia, ib := strings.IndexByte(a, '/'), strings.IndexByte(b, '/')
+	if ia < 0 && ib >= 0 {
+		return a == b[ib+1:]
+	}
+	if ia >= 0 && ib < 0 {
+		return a[ia+1:] == b
+	}
+	return false
 }
